@@ -23,7 +23,7 @@ pub fn model(tier: Tier, world: &str) -> Hist {
 
 pub fn run(tier: Tier) -> Outcome {
     let worlds: &[&str] = match tier {
-        Tier::Quick => &["A", "B"],
+        Tier::Quick => &["A", "B", "C", "D"],
         Tier::Thorough => &["A", "B", "C", "D"],
     };
     let depth = match tier {
